@@ -51,3 +51,264 @@ Definition ann1 : list (list litem) :=
 Example C05_nonvacuous :
   table_complete g1 tb1 ann1 [[0]; [0]] [false; false] 1 = true /\ table_struct g1 tb1 1 = true.
 Proof. vm_compute. split; reflexivity. Qed.
+
+(* ========================================================================================
+   The construction itself: an executable Gallina model of create_table (Model/First.v,
+   Closure.v, Automaton.v, TableBuild.v), compared with the impl's tables on every run
+   (correspondence table_build_correspondence, harness/lib/tabcorr.py), and theorems about
+   it for ALL grammars.
+   ======================================================================================== *)
+From Coq Require Import Arith.
+From PV Require Import Model.First Model.Closure Model.Automaton Model.Resolve Model.TableBuild
+  Model.TableSpec Proofs.SetProofs Proofs.FirstProofs Proofs.FollowProofs Proofs.ClosureProofs
+  Proofs.AutomatonProofs Proofs.TableBuildProofs.
+
+(* ---- (a) FIRST / nullable ------------------------------------------------------------ *)
+(* first(grammar) needs at most |nonterminals| * |terminals| + 1 rounds: no fuel hypothesis *)
+Theorem C05_first_terminates :
+  forall (e : N) (nnts nterms : nat) (ps : list prod) (fuel : nat),
+    prods_wfb e nnts nterms ps = true -> (first_fuel nnts nterms <= fuel)%nat ->
+    exists fs, first_sets e fuel nnts ps = Some fs.
+Proof.
+  intros e nnts nterms ps fuel Hwf Hf.
+  destruct (first_fuel_enough e nnts nterms ps Hwf fuel Hf) as (fs & H & _). exists fs. exact H.
+Qed.
+Print Assumptions C05_first_terminates.
+
+(* soundness: a terminal in FIRST(a) starts a sentential form derived from a; EMPTY in
+   FIRST(a) means a derives the empty string (derivations over the grammar without EMPTY) *)
+Theorem C05_first_sound :
+  forall (e : N) (ps : list prod) (fuel nnts : nat) (fs : fsets),
+    first_sets e fuel nnts ps = Some fs ->
+    forall a y, In y (fget fs a) ->
+      (y = e -> derives (strip_prods e ps) [NT a] []) /\
+      (y <> e -> exists beta, derives (strip_prods e ps) [NT a] (T y :: beta)).
+Proof. intros e ps fuel nnts fs H. exact (first_sound e ps fuel nnts fs H). Qed.
+Print Assumptions C05_first_sound.
+
+(* completeness, in the form the validator asks of its certificate: the model's FIRST sets
+   pass first_closed, so they can serve as the FIRST/nullable annotation of table_complete *)
+Theorem C05_first_closed :
+  forall (e : N) (ps : list prod) (fuel nnts : nat) (fs : fsets),
+    first_sets e fuel nnts ps = Some fs ->
+    first_closed (strip_prods e ps) (fst_tab_of e fs) (nul_tab_of e fs) = true.
+Proof. exact first_closed_ok. Qed.
+Print Assumptions C05_first_closed.
+
+(* hence FIRST(a) contains EVERY terminal that starts a sentential form derived from a *)
+Theorem C05_first_complete :
+  forall (e : N) (ps : list prod) (fuel nnts : nat) (fs : fsets) (a : N),
+    first_sets e fuel nnts ps = Some fs ->
+    (forall y beta, derives (strip_prods e ps) [NT a] (T y :: beta) -> In y (fget fs a) /\ y <> e) /\
+    (derives (strip_prods e ps) [NT a] [] -> In e (fget fs a)).
+Proof. intros e ps fuel nnts fs a H. exact (first_complete e ps fuel nnts fs a H). Qed.
+Print Assumptions C05_first_complete.
+
+(* EMPTY symbols in right-hand sides are invisible to first(grammar): the raw grammar the impl
+   holds and the grammar without EMPTY that the rest of the verification uses give the same sets *)
+Theorem C05_first_ignores_empty :
+  forall (e : N) (fuel nnts : nat) (ps : list prod),
+    first_sets e fuel nnts ps = first_sets e fuel nnts (strip_prods e ps).
+Proof. exact first_sets_strip. Qed.
+Print Assumptions C05_first_ignores_empty.
+
+(* the derivation relation agrees with the derivation trees of Spec/Cfg.v *)
+Theorem C05_derives_of_tree :
+  forall (g : grammar) (t : tree) (X : sym),
+    wf_tree g t -> root_sym g t = Some X -> derives g [X] (leaf_syms t).
+Proof. intros g t X Hwf. exact (derives_of_tree g t Hwf X). Qed.
+Print Assumptions C05_derives_of_tree.
+
+(* FOLLOW: same fuel bound, and closedness under the FOLLOW rules *)
+Theorem C05_follow_terminates :
+  forall (e : N) (fs : fsets) (ps : list prod) (nnts nterms : nat),
+    fs_inv nnts nterms fs -> prods_wfb e nnts nterms ps = true ->
+    exists fo, follow_sets e (first_fuel nnts nterms) fs nnts ps = Some fo.
+Proof.
+  intros e fs ps nnts nterms Hfs Hwf.
+  destruct (follow_total e fs ps nnts nterms Hfs Hwf) as (fo & H & _). exists fo. exact H.
+Qed.
+Print Assumptions C05_follow_terminates.
+
+Theorem C05_follow_closed :
+  forall (e : N) (fs : fsets) (ps : list prod) (fuel nnts : nat) (fo : fsets),
+    follow_sets e fuel fs nnts ps = Some fo ->
+    forall b p pre suf y,
+      (N.to_nat b < nnts)%nat -> In p ps -> rhs p = pre ++ NT b :: suf -> y <> e ->
+      (In y (fst_seq (fst_tab_of e fs) (nul_tab_of e fs) (strip e suf)) \/
+       (nul_seq (nul_tab_of e fs) (strip e suf) = true /\ In y (fget fo (lhs p)))) ->
+      In y (fget fo b).
+Proof.
+  intros e fs ps fuel nnts fo H b p pre suf y Hb Hp Hr Hy Hin.
+  apply (follow_closed_ok e fs ps fuel nnts fo H b p Hb Hp pre suf Hr y Hy).
+  apply (sfirst_strip e fs _ suf y Hy). exact Hin.
+Qed.
+Print Assumptions C05_follow_closed.
+
+(* ---- (b) closure ------------------------------------------------------------------------ *)
+(* the closure keeps the given items in place (follow sets only grow), appends only items
+   with the dot at position 0, is closed -- for every item A -> alpha . B beta [L] and every
+   production q of B the item (q, 0) is present and, for LR_1, its follow set contains
+   _new_item_follow of the source item -- and keeps the items pairwise different *)
+Theorem C05_closure_closed :
+  forall (ps : list prod) (e : N) (lr1 : bool) (fs : fsets) (fuel : nat) (its its' : list item),
+    closure ps e lr1 fs fuel its = Some its' ->
+    grows its its' /\ closed ps e lr1 fs its' /\ (pd_nodup its -> pd_nodup its').
+Proof. exact closure_spec. Qed.
+Print Assumptions C05_closure_closed.
+
+(* soundness: every appended item is B -> . gamma for an item of the result with B after its
+   dot, and every lookahead that was not given comes from _new_item_follow of such an item *)
+Theorem C05_closure_sound :
+  forall (ps : list prod) (e : N) (lr1 : bool) (fs : fsets) (fuel : nat) (its its' : list item),
+    closure ps e lr1 fs fuel its = Some its' -> justified ps e fs its its'.
+Proof. exact closure_sound. Qed.
+Print Assumptions C05_closure_sound.
+
+(* _new_item_follow is FIRST(beta), plus the item's own follow set when beta is nullable *)
+Theorem C05_new_item_follow :
+  forall (ps : list prod) (e : N) (fs : fsets) (it : item) (y : N),
+    trailing_emptyb e (rhs_raw ps (it_p it)) = true ->
+    (it_d it < rlen e (rhs_raw ps (it_p it)))%nat -> y <> e ->
+    (In y (new_item_follow ps e fs it) <->
+     In y (fst_seq (fst_tab_of e fs) (nul_tab_of e fs)
+                   (skipn (S (it_d it)) (strip e (rhs_raw ps (it_p it))))) \/
+     (nul_seq (nul_tab_of e fs) (skipn (S (it_d it)) (strip e (rhs_raw ps (it_p it)))) = true /\
+      In y (it_f it))).
+Proof. exact nif_spec. Qed.
+Print Assumptions C05_new_item_follow.
+
+(* goto / state queue: when the queue is empty every state is closed, its items are pairwise
+   different, and for every item with a symbol X after the dot the state records ACCEPT
+   (X = STOP), a SHIFT or a GOTO whose target contains the advanced item -- whatever LALR
+   merges happened *)
+Theorem C05_automaton_structure :
+  forall (ps : list prod) (e stop : N) (lr1 : bool) (fs : fsets) (cfuel : nat)
+         (max_states : option nat) (fuel : nat) (all : list mstate),
+    ps <> [] ->
+    build_loop ps e stop lr1 fs cfuel max_states fuel 0 [state0 ps] = BOk all ->
+    sinv ps e stop (length all) all.
+Proof.
+  intros ps e stop lr1 fs cfuel ms fuel all Hne H.
+  exact (build_loop_spec ps e stop lr1 fs cfuel ms fuel 0 _ all H (sinv_init ps e stop Hne)).
+Qed.
+Print Assumptions C05_automaton_structure.
+
+(* the final LALR loop ends only when every state is closed with lookaheads and every
+   target's kernel items contain the follow sets of the items they come from *)
+Theorem C05_lalr_fixpoint :
+  forall (ps : list prod) (e : N) (fs : fsets) (cfuel fuel : nat) (all all' : list mstate),
+    lalr_loop ps e true fs cfuel fuel all = BOk all' ->
+    (forall j s, nth_error all j = Some s -> closed0 ps e (pds (ms_items s))) ->
+    same_pds all all' /\ lalr_post ps e fs all'.
+Proof. exact lalr_loop_spec. Qed.
+Print Assumptions C05_lalr_fixpoint.
+
+(* ---- END TO END: the table the model builds passes table_complete ------------------------- *)
+(* For EVERY grammar of the class plain_ok (well numbered; production 0 = S' -> start STOP,
+   S' and STOP nowhere else; EMPTY only at the end of right-hand sides; no priorities,
+   associativities, nops/nopse, prefer_shifts*: nothing that removes actions), SLR and LALR:
+   if the construction returns a table (it did not run out of fuel / budget and did not
+   crash), table_complete accepts it with the annotation made of the model's OWN item sets
+   (LALR: their follow sets; SLR: FOLLOW(lhs)) and the model's OWN FIRST sets ... *)
+Theorem C05_model_table_complete :
+  forall (c : tconf) (b : tbuilt),
+    plain_ok c = true -> create_table c = BOk b ->
+    table_complete (cfg_std c) (tb_table b) (ann_of_built c b)
+                   (fst_std c (tb_first b)) (nul_std c (tb_first b)) (tc_stop c) = true.
+Proof. exact model_table_complete. Qed.
+Print Assumptions C05_model_table_complete.
+
+(* ... and therefore (C05_nothing_missing) every derivation tree of the grammar has an
+   accepting run on the model-built table that builds exactly this tree *)
+Theorem C05_model_table_accepts :
+  forall (c : tconf) (b : tbuilt),
+    plain_ok c = true -> create_table c = BOk b ->
+    forall (d tr : tree),
+      wf_tree (cfg_std c) tr -> root_sym (cfg_std c) tr = Some (NT (start_nt c)) ->
+      exists st, lsteps (cfg_std c) (tb_table b) (tc_stop c) ([(O, d)], leaves tr) (st, []) /\
+                 laccepts (tb_table b) (tc_stop c) st tr.
+Proof. exact model_table_accepts. Qed.
+Print Assumptions C05_model_table_accepts.
+
+(* ... and the other half: the model's table passes table_struct, i.e. (C05_only_derivations)
+   every accepting run of its LR machine, under any lookahead relation, builds a derivation
+   tree of the grammar whose leaves are the shifted tokens.  The invariant behind it: the
+   kernel items of the target of every X-edge come from items of the source state with X
+   after the dot, and only state 0 contains the item (0, 0). *)
+Theorem C05_model_table_struct :
+  forall (c : tconf) (b : tbuilt),
+    plain_ok c = true -> create_table c = BOk b ->
+    table_struct (cfg_std c) (tb_table b) (start_nt c) = true.
+Proof. exact model_table_struct. Qed.
+Print Assumptions C05_model_table_struct.
+
+Theorem C05_model_table_only_derivations :
+  forall (c : tconf) (b : tbuilt),
+    plain_ok c = true -> create_table c = BOk b ->
+    forall (look : N -> N -> N -> N -> Prop) pos d cf tr,
+      nsteps (cfg_std c) (tb_table b) look (init_cfg pos d) cf -> naccepts (tb_table b) look cf tr ->
+      wf_tree (cfg_std c) tr /\ root_sym (cfg_std c) tr = Some (NT (start_nt c)) /\
+      leaves tr = c_trace cf.
+Proof. exact model_table_only_derivations. Qed.
+Print Assumptions C05_model_table_only_derivations.
+
+(* NOT PROVED for the model (checked per generated grammar):
+   - the end-to-end theorems when priorities / associativity / prefer_shifts REMOVE actions
+     (then completeness is false by design: C06; table_struct would still hold);
+   - LALR precision (no reduction outside the LALR(1) lookahead);
+   - termination of the state queue: false (next theorem). *)
+
+(* ---- (c) the LALR construction does not terminate on the known-finding grammar ------------ *)
+(* KF-C05-lalr-divergence witness  S: 'a' | 'a' A; A: S S 'a' | 'a';  (terminals a=0 EMPTY=1
+   STOP=2, nonterminals S'=0 S=1 A=2).  After taking n states from the queue the faithful
+   model holds n+1 states and the queue is still not empty, for every n tried: each refused
+   merge appends a state that later look-ups never find.  SLR: 8 states. *)
+Definition kf_c05_conf (lr1 : bool) (sfuel : nat) : tconf :=
+  mkTC [mkProd 0 [NT 1; T 2]; mkProd 1 [T 0]; mkProd 1 [T 0; NT 2];
+        mkProd 2 [NT 1; NT 1; T 0]; mkProd 2 [T 0]]
+       3 3 1 2 1 lr1 false false true [] [] [] [] None 100 2000 sfuel 100.
+
+Definition outcome (r : bres tbuilt) : N * N :=
+  match r with
+  | BOk b => (0, N.of_nat (length (tb_table b)))
+  | BGrammarError a => (1, a)
+  | BBudget n => (2, n)
+  | BCrash k => (3, k)
+  | BFuel _ n => (4, n)
+  end.
+
+Theorem C05_lalr_divergence_witness :
+  map (fun n => outcome (create_table (kf_c05_conf true n))) [10; 20; 40; 80]%nat
+  = [(4, 11); (4, 21); (4, 41); (4, 81)] /\
+  outcome (create_table (kf_c05_conf false 80)) = (0, 8).
+Proof. vm_compute. split; reflexivity. Qed.
+Print Assumptions C05_lalr_divergence_witness.
+
+(* ---- non-vacuity ---------------------------------------------------------------------------- *)
+(* S' -> S STOP; S -> S 'a' | EMPTY   (terminals a=0 EMPTY=1 STOP=2) *)
+Definition ex_conf (lr1 : bool) : tconf :=
+  mkTC [mkProd 0 [NT 1; T 2]; mkProd 1 [NT 1; T 0]; mkProd 1 [T 1]]
+       3 2 1 2 1 lr1 false false true [] [] [] [] None 100 2000 100 100.
+
+Example C05_first_nonvacuous :
+  prods_wfb 1 2 3 (tc_prods (ex_conf true)) = true /\
+  first_sets 1 (first_fuel 2 3) 2 (tc_prods (ex_conf true)) = Some [[2; 0]; [1; 0]] /\
+  follow_sets 1 (first_fuel 2 3) [[2; 0]; [1; 0]] 2 (tc_prods (ex_conf true)) = Some [[]; [2; 0]].
+Proof. vm_compute. repeat split; reflexivity. Qed.
+
+Example C05_closure_nonvacuous :
+  closure (tc_prods (ex_conf true)) 1 true [[2; 0]; [1; 0]] 100 [mkItem 0 0 []]
+  = Some [mkItem 0 0 []; mkItem 1 0 [2; 0]; mkItem 2 0 [2; 0]].
+Proof. vm_compute. reflexivity. Qed.
+
+Example C05_model_table_nonvacuous :
+  plain_ok (ex_conf true) = true /\ plain_ok (ex_conf false) = true /\
+  outcome (create_table (ex_conf true)) = (0, 3) /\ outcome (create_table (ex_conf false)) = (0, 3) /\
+  match create_table (ex_conf true) with
+  | BOk b => table_complete (cfg_std (ex_conf true)) (tb_table b) (ann_of_built (ex_conf true) b)
+                            (fst_std (ex_conf true) (tb_first b)) (nul_std (ex_conf true) (tb_first b)) 2
+             && table_struct (cfg_std (ex_conf true)) (tb_table b) (start_nt (ex_conf true))
+  | _ => false
+  end = true.
+Proof. vm_compute. repeat split; reflexivity. Qed.
